@@ -115,6 +115,60 @@ func (vEnc) Unmarshal(b []byte) (uint64, error) {
 type vCfg struct {
 	capacity int64
 	reqSized bool
+	init     *vInit // initial storage contents (nil = empty store)
+}
+
+// an initial store in decoded form (what an earlier run can have left behind, possibly with missing bodies)
+type vInit struct {
+	ri, wi, si int64 // -1 = key not set
+	diSet      bool
+	di         []uint64
+	items      [][2]uint64 // (index, request id), distinct indexes
+}
+
+func (in *vInit) fill(m map[string][]byte) {
+	le := func(x uint64) []byte { return binary.LittleEndian.AppendUint64(nil, x) }
+	if in.ri >= 0 {
+		m["ri"] = le(uint64(in.ri))
+	}
+	if in.wi >= 0 {
+		m["wi"] = le(uint64(in.wi))
+	}
+	if in.si >= 0 {
+		m["si"] = le(uint64(in.si))
+	}
+	if in.diSet {
+		b := binary.LittleEndian.AppendUint32(nil, uint32(len(in.di)))
+		for _, x := range in.di {
+			b = binary.LittleEndian.AppendUint64(b, x)
+		}
+		m["di"] = b
+	}
+	for _, it := range in.items {
+		m[strconv.FormatUint(it[0], 10)] = le(it[1])
+	}
+}
+
+func (in *vInit) term() string {
+	on := func(x int64) string {
+		if x < 0 {
+			return "None"
+		}
+		return "(Some " + vN(uint64(x)) + ")"
+	}
+	di := "None"
+	if in.diSet {
+		ds := make([]string, len(in.di))
+		for i, x := range in.di {
+			ds[i] = vN(x)
+		}
+		di = "(Some " + vList(ds) + ")"
+	}
+	its := make([]string, len(in.items))
+	for i, it := range in.items {
+		its[i] = vPair(vN(it[0]), vN(it[1]))
+	}
+	return "(" + on(in.ri) + ", " + on(in.wi) + ", " + di + ", " + on(in.si) + ", " + vList(its) + ")"
 }
 
 func vSizeof(c vCfg, id uint64) int64 {
@@ -281,11 +335,17 @@ type vHist struct {
 
 	refusedReputs int
 	drains        int
+	skipToBlock   int
+	skippedBodies int
 }
 
 func vNewHist(c vCfg) *vHist {
-	return &vHist{cfg: c, m: map[string][]byte{}, accepted: map[uint64]bool{}, final: map[uint64]bool{},
+	h := &vHist{cfg: c, m: map[string][]byte{}, accepted: map[uint64]bool{}, final: map[uint64]bool{},
 		handed: map[uint64]int{}, lost: map[uint64]string{}}
+	if c.init != nil {
+		c.init.fill(h.m)
+	}
+	return h
 }
 
 var vErrFailed = errors.New("permanent failure")
@@ -326,6 +386,43 @@ func vRead(pq *persistentQueue[uint64]) (id uint64, d Done, ok bool, crashed boo
 	}
 }
 
+// vReadUntilParked runs pq.Read in a goroutine when it is known to find no body: it returns when the
+// reader has consumed every index (readIndex == writeIndex) or the incarnation died; the reader
+// goroutine stays parked on the condition variable (nothing touches this queue object afterwards).
+func vReadUntilParked(pq *persistentQueue[uint64], cl *vClient) (crashed bool, ch chan bool) {
+	ch = make(chan bool, 1)
+	go func() {
+		defer func() {
+			if p := recover(); p != nil {
+				if _, is := p.(vCrash); is {
+					ch <- true
+					return
+				}
+				panic(p)
+			}
+		}()
+		pq.Read(context.Background())
+		ch <- false
+	}()
+	// the reader holds pq.mu during all its storage calls, and cl.dead is set under it: once we see
+	// (under pq.mu) dead, or readIndex == writeIndex without dead, no further storage call can follow
+	deadline := time.Now().Add(60 * time.Second)
+	for {
+		pq.mu.Lock()
+		done := pq.readIndex == pq.writeIndex
+		dead := cl.dead
+		pq.mu.Unlock()
+		if dead {
+			<-ch
+			return true, nil
+		}
+		if done || time.Now().After(deadline) {
+			return false, ch
+		}
+		time.Sleep(100 * time.Microsecond)
+	}
+}
+
 // run one incarnation on h.m; updates the oracle state; appends to h.incs / h.obs
 func (h *vHist) run(inc vInc) (hung bool) {
 	cl := &vClient{m: h.m}
@@ -336,6 +433,8 @@ func (h *vHist) run(inc vInc) (hung bool) {
 	var pq *persistentQueue[uint64]
 	var outs []vHandle
 	recovered := false
+	truncated := false
+	var parked chan bool // a reader parked on the empty queue (released after the observations are taken)
 	func() {
 		defer func() {
 			if p := recover(); p != nil {
@@ -353,7 +452,10 @@ func (h *vHist) run(inc vInc) (hung bool) {
 		if n := len(pq.currentlyDispatchedItems); n > 0 {
 			h.refusedReputs += n // re-puts refused by the capacity check: kept listed under di
 		}
-		for _, o := range inc.script {
+		for oi, o := range inc.script {
+			if truncated {
+				break
+			}
 			switch o.tag {
 			case 0:
 				err := pq.Offer(context.Background(), o.a)
@@ -376,6 +478,35 @@ func (h *vHist) run(inc vInc) (hung bool) {
 					ob.res = append(ob.res, vRes{3, 0, 0, pq.Size()})
 					continue
 				}
+				// every remaining body in [ri, wi) missing: Read cleans the indexes up and then waits for ever
+				// (the model: RBlocked after the storage calls).  Let it run, wait until it has caught up,
+				// record the result and END this incarnation's script here (the reader stays parked).
+				pq.mu.Lock()
+				anyBody := pq.stopped || pq.readIndex == pq.writeIndex
+				for i := pq.readIndex; i != pq.writeIndex; i++ {
+					if b, ok := h.m[strconv.FormatUint(i, 10)]; ok && len(b) >= 8 {
+						anyBody = true
+						break
+					}
+				}
+				pq.mu.Unlock()
+				if !anyBody {
+					crashed, pch := vReadUntilParked(pq, cl)
+					parked = pch
+					if crashed {
+						panic(vCrash{})
+					}
+					ob.res = append(ob.res, vRes{3, 0, 0, pq.Size()})
+					h.skipToBlock++
+					inc.script = append([]vOp{}, inc.script[:oi+1]...)
+					truncated = true
+				}
+				if truncated {
+					break
+				}
+				pq.mu.Lock()
+				riBefore := pq.readIndex
+				pq.mu.Unlock()
 				id, d, ok, crashed, hg := vRead(pq)
 				if hg {
 					hung = true
@@ -389,6 +520,9 @@ func (h *vHist) run(inc vInc) (hung bool) {
 					continue
 				}
 				idx := d.(*indexDone).index
+				if idx > riBefore {
+					h.skippedBodies += int(idx - riBefore)
+				}
 				outs = append(outs, vHandle{d, id, idx})
 				h.handed[id]++
 				h.handoffs++
@@ -419,6 +553,23 @@ func (h *vHist) run(inc vInc) (hung bool) {
 			}
 		}
 	}()
+	if parked != nil {
+		// release the parked reader (the package's TestMain checks for leaked goroutines): it wakes up,
+		// sees stopped and returns without touching the storage; this queue object is not used again
+		calls := cl.calls
+		pq.mu.Lock()
+		pq.stopped = true
+		pq.hasMoreElements.Broadcast()
+		pq.mu.Unlock()
+		select {
+		case <-parked:
+		case <-time.After(60 * time.Second):
+			h.fails = append(h.fails, vFail{"read-hangs", "parked reader did not return after stop"})
+		}
+		if cl.calls != calls {
+			h.fails = append(h.fails, vFail{"parked-reader-touched-storage", fmt.Sprintf("%d calls", cl.calls-calls)})
+		}
+	}
 	if hung {
 		h.fails = append(h.fails, vFail{"read-hangs", "Read blocked although readIndex != writeIndex"})
 		return true
@@ -494,6 +645,9 @@ func (h *vHist) term() string {
 			rs[j] = "(" + vNat(r.tag) + ", " + vN(r.a) + ", " + vN(r.b) + ", " + vZ(r.size) + ")"
 		}
 		obs[i] = "(" + vBool(ob.died) + ", " + vNat(ob.closes) + ", " + vList(rs) + ", " + ob.store + ")"
+	}
+	if h.cfg.init != nil {
+		return "CHistFrom " + vZ(h.cfg.capacity) + " " + vBool(h.cfg.reqSized) + " " + h.cfg.init.term() + " " + vList(incs) + " " + vList(obs)
 	}
 	return "CHist " + vZ(h.cfg.capacity) + " " + vBool(h.cfg.reqSized) + " " + vList(incs) + " " + vList(obs)
 }
@@ -630,6 +784,15 @@ func vEmit(out *vOut, h *vHist) {
 	if h.refusedReputs > 0 {
 		out.Stat("histories_with_refused_reput_in_recovery", 1)
 	}
+	if h.skippedBodies > 0 {
+		out.Stat("histories_with_read_skipping_missing_bodies", 1)
+	}
+	if _, ok := h.m["si"]; ok {
+		out.Stat("histories_ending_with_size_snapshot", 1)
+	}
+	if h.skipToBlock > 0 {
+		out.Stat("histories_with_read_skipping_to_empty", 1)
+	}
 	out.Stat(fmt.Sprintf("drain_incarnations_%d", h.drains), 1)
 	if h.deaths > 0 {
 		out.Stat(fmt.Sprintf("histories_with_%d_deaths", h.deaths), 1)
@@ -688,12 +851,28 @@ func TestVerifC01(t *testing.T) {
 		c    vCfg
 		incs []vInc
 	}{
-		{vCfg{10, true}, []vInc{warm, {[]vOp{off(1), off(2), rd, rd}, -1}, {nil, 4}}},
-		{vCfg{10, true}, []vInc{warm, {[]vOp{off(1), off(2), rd, rd}, -1}, {nil, 5}}},
-		{vCfg{2, true}, []vInc{warm, {[]vOp{off(1), rd, off(2), off(3)}, -1}}},
-		{vCfg{10, true}, []vInc{{[]vOp{off(1), off(2)}, -1}}},
-		{vCfg{10, true}, []vInc{warm, {[]vOp{off(1), off(2), rd, rd, {2, 0, 2}, {3, 0, 0}}, -1}}},
-		{vCfg{10, false}, []vInc{warm, {[]vOp{off(1), off(2), off(3), off(4), off(5), rd, rd, ok0, {3, 0, 0}}, -1}, {nil, 3}}},
+		{vCfg{capacity: 10, reqSized: true}, []vInc{warm, {[]vOp{off(1), off(2), rd, rd}, -1}, {nil, 4}}},
+		{vCfg{capacity: 10, reqSized: true}, []vInc{warm, {[]vOp{off(1), off(2), rd, rd}, -1}, {nil, 5}}},
+		{vCfg{capacity: 2, reqSized: true}, []vInc{warm, {[]vOp{off(1), rd, off(2), off(3)}, -1}}},
+		{vCfg{capacity: 10, reqSized: true}, []vInc{{[]vOp{off(1), off(2)}, -1}}},
+		{vCfg{capacity: 10, reqSized: true}, []vInc{warm, {[]vOp{off(1), off(2), rd, rd, {2, 0, 2}, {3, 0, 0}}, -1}}},
+		{vCfg{capacity: 10, reqSized: false}, []vInc{warm, {[]vOp{off(1), off(2), off(3), off(4), off(5), rd, rd, ok0, {3, 0, 0}}, -1}, {nil, 3}}},
+	}
+	{
+		// 12 offers, 10 hand-offs completed: reaches both size-snapshot points (writeIndex%10 == 5, readIndex%10 == 0)
+		var sc []vOp
+		for i := uint64(1); i <= 12; i++ {
+			sc = append(sc, off(i))
+		}
+		for i := 0; i < 10; i++ {
+			sc = append(sc, rd, ok0)
+		}
+		for _, b := range []int{-1, 1, 2, 3} {
+			fixed = append(fixed, struct {
+				c    vCfg
+				incs []vInc
+			}{vCfg{capacity: 100, reqSized: false}, []vInc{{sc, -1}, {[]vOp{rd, off(13), {2, 0, 1}}, b}}})
+		}
 	}
 	for _, f := range fixed {
 		h, _ := vRunHistory(f.c, f.incs, true)
@@ -701,7 +880,7 @@ func TestVerifC01(t *testing.T) {
 	}
 
 	// (1) generated scripts, every crash point, nested
-	nscripts := vBudget(16, 12)
+	nscripts := vBudget(16, 5)
 	levels := 2
 	maxLen := 8
 	if vTier() != "quick" {
@@ -743,6 +922,55 @@ func TestVerifC01(t *testing.T) {
 			pf = append(pf, vInc{scripts[l], -1})
 		}
 		vEnumerate(t, out, c, prefix, scripts, 0, rng)
+	}
+
+	// (1b) histories that start from a store left behind by an earlier run: well-formed (ri <= wi, listed
+	// dispatched indexes below ri) but with missing bodies (Read must skip them), stale di entries, an
+	// arbitrary size snapshot, or a write index without a read index
+	for s := 0; s < vBudget(7, 6); s++ {
+		in := &vInit{si: -1}
+		ri := uint64(rng.Intn(6))
+		wi := ri + uint64(rng.Intn(5))
+		in.ri, in.wi = int64(ri), int64(wi)
+		if rng.Intn(6) == 0 {
+			in.ri, ri = -1, 0
+			out.Stat("init_no_read_index", 1)
+		}
+		for i := uint64(0); i < ri; i++ {
+			if rng.Intn(2) == 0 {
+				in.diSet = true
+				in.di = append(in.di, i)
+				if rng.Intn(2) == 0 {
+					in.items = append(in.items, [2]uint64{i, 1000 + i})
+				} else {
+					out.Stat("init_stale_di_entry", 1)
+				}
+			}
+		}
+		if ri > 0 && rng.Intn(4) == 0 {
+			in.diSet = true
+		}
+		for i := ri; i < wi; i++ {
+			if rng.Intn(5) >= 2 {
+				in.items = append(in.items, [2]uint64{i, 1000 + i})
+			} else {
+				out.Stat("init_missing_body_in_range", 1)
+			}
+		}
+		if rng.Intn(2) == 0 {
+			in.si = int64(rng.Intn(9))
+		}
+		c := vCfg{capacity: 100, reqSized: rng.Intn(2) == 0, init: in}
+		if rng.Intn(3) == 0 {
+			c.capacity = int64(2 + rng.Intn(4))
+			if !c.reqSized && c.capacity < 3 {
+				c.capacity = 3 // every stored request must fit into the empty queue (sizes are 1..3)
+			}
+		}
+		out.Stat("init_stores", 1)
+		sc0 := g.script(c, nil, 3+rng.Intn(6), out)
+		sc1 := g.script(c, []vInc{{sc0, -1}}, rng.Intn(3), out)
+		vEnumerate(t, out, c, nil, [][]vOp{sc0, sc1}, 0, rng)
 	}
 
 	// (2) codecs
